@@ -12,7 +12,7 @@ RULE = (
     "(i) independent pairs of small same-class graphs (<=7 atoms, tiny element alphabets; about half built as "
     "shuffled rebuilds, optionally mutated); (ii) single-feature mutations of larger graphs (element, bond "
     "moved/added/removed, bond role, inverted centre, swapped ligands incl. placeholders, E/Z flip, stereo-change "
-    "edits, formed<->broken swap); (iii) all 12 ordered cross-class pairs built from one snapshot. Fully specified "
+    "edits, formed<->broken swap; 12 % of these on 20-110 atom chains, macrocycles, big random graphs and RDKit molecules); (iii) all 12 ordered cross-class pairs built from one snapshot. Fully specified "
     "parities. Truth = independent backtracking search (sem.iter_isos) for a bijection preserving elements, bonds, "
     "roles, descriptors up to symmetry and stereo changes; 'mutated => unequal' is never assumed. Non-trivial: same "
     "atom count, element multiset and degree sequence (or a cross-class pair); distinct by invariants of both graphs "
@@ -36,7 +36,7 @@ ANCHORS = [
     "stereomolgraph.algorithms.isomorphism:_stereo_change_feasibility",
 ]
 REQUIRED_ANCHORS = ANCHORS
-REQUIRED = ["oracle_equal", "oracle_unequal", "cross_class_pairs", "mutation_pairs", "independent_pairs", "with_placeholder", "wl_hard_pairs"]
+REQUIRED = ["oracle_equal", "oracle_unequal", "cross_class_pairs", "mutation_pairs", "independent_pairs", "with_placeholder", "wl_hard_pairs", "large_pairs"]
 
 
 def gen_cases(ctx):
@@ -78,7 +78,10 @@ def gen_cases(ctx):
                 b = sem.pg_relabel(gen.wl_hard_pg(rng, cls, comps=rng.choice(group), hydrogens=hyd, decorate_p=0.3, z=6), gen.random_bijection(rng, a, "fresh"))
             yield {"kind": "wl-hard", "cls": cls, "a": pg_to_json(a), "b": pg_to_json(b), "mut": None, "bseed": rng.randrange(1 << 30)}
         elif j < 9:  # single-feature mutation
-            a = gen.random_pg(rng, cls, n_range=big if rng.random() < 0.5 else (3, 9), alphabet=rng.choice([gen.TINY, gen.SMALL, gen.WIDE]), p_stereo=0.7)
+            if rng.random() < 0.12:
+                a = _specified(gen.large_pg(rng, cls))  # a single edit somewhere in a 20-110 atom graph
+            else:
+                a = gen.random_pg(rng, cls, n_range=big if rng.random() < 0.5 else (3, 9), alphabet=rng.choice([gen.TINY, gen.SMALL, gen.WIDE]), p_stereo=0.7)
             r = gen.mutate(rng, sem.pg_relabel(a, gen.random_bijection(rng, a)))
             if not r:
                 continue
@@ -86,6 +89,16 @@ def gen_cases(ctx):
         else:  # cross-class
             a = gen.random_pg(rng, "StereoCondensedReactionGraph", n_range=(1, 8), alphabet=gen.SMALL, p_stereo=rng.choice([0.0, 0.6]), p_role=rng.choice([0.0, 0.3]), p_change=rng.choice([0.0, 0.3]))
             yield {"kind": "cross", "cls": "cross", "a": pg_to_json(a), "b": None, "mut": None, "bseed": rng.randrange(1 << 30)}
+
+
+def _specified(pg):
+    """C02 is stated for fully specified parities"""
+    fix = lambda d: d if d[2] is not None else (d[0], d[1], 0 if d[0] in ("SquarePlanar", "PlanarBond") else 1)
+    for key in ("astereo", "bstereo"):
+        pg[key] = {k: fix(d) for k, d in pg[key].items()}
+    for key in ("achange", "bchange"):
+        pg[key] = {k: {s_: fix(d) for s_, d in v.items()} for k, v in pg[key].items()}
+    return pg
 
 
 def _strip(pg, cls):
@@ -165,6 +178,8 @@ def check_case(ctx, case):
     ctx.count("mutation_pairs" if kind == "mut" else "wl_hard_pairs" if kind == "wl-hard" else "independent_pairs")
     if any(None in d[1] for d in descs):
         ctx.count("with_placeholder")
+    if len(a["atoms"]) >= 20:
+        ctx.count("large_pairs")
     if kind == "mut":
         ctx.count(f"mut:{case['mut']}:{'equal' if truth else 'unequal'}")
     for name, f in (("a==b", lambda: ga == gb), ("b==a", lambda: gb == ga)):
